@@ -119,7 +119,11 @@ func (in *inliner) textOf(n ast.Node) rope {
 		}
 		if id, ok := m.(*ast.Ident); ok && len(in.subst) > 0 {
 			if info := in.infoOf[file]; info != nil {
-				if o := info.Uses[id]; o != nil {
+				o := info.Uses[id]
+				if o == nil {
+					o = info.Defs[id]
+				}
+				if o != nil {
 					if r, ok := in.subst[o]; ok {
 						out = append(out, in.text(file, cur, id.Pos())...)
 						out = append(out, r...)
@@ -718,30 +722,90 @@ func (in *inliner) emitSite0(s *inlSite) (rope, bool) {
 	}
 	scanMut(body, false)
 	// canSubst: the parameter can be replaced textually by the argument
+	// stores and calls of the body, for substituting selector-path arguments
+	storedFields := map[types.Object]bool{}
+	callsQuiet := true
+	ast.Inspect(body, func(m ast.Node) bool {
+		switch t := m.(type) {
+		case *ast.AssignStmt:
+			for _, l := range t.Lhs {
+				if sel, ok := ast.Unparen(l).(*ast.SelectorExpr); ok {
+					storedFields[info.Uses[sel.Sel]] = true
+				}
+			}
+		case *ast.IncDecStmt:
+			if sel, ok := ast.Unparen(t.X).(*ast.SelectorExpr); ok {
+				storedFields[info.Uses[sel.Sel]] = true
+			}
+		case *ast.CallExpr:
+			if id, isId := ast.Unparen(t.Fun).(*ast.Ident); isId {
+				if _, b := info.Uses[id].(*types.Builtin); b {
+					return true
+				}
+			}
+			if info.Types[t.Fun].IsType() {
+				return true
+			}
+			switch calleeName(info, t) {
+			case "Info", "Error", "V", "WithValues", "WithName", "Infof", "Errorf", "Sprintf", "String", "Debugf", "Warnf", "Is", "As", "Inc", "Dec", "WithLabelValues":
+				return true
+			}
+			if fi := in.p.FuncOf(Callee(info, t)); fi != nil && fi.Decl.Recv != nil && in.p.pureMethod(fi, 0) {
+				return true
+			}
+			callsQuiet = false
+		}
+		return true
+	})
+	// canSubst: the parameter can be replaced textually by the argument
 	canSubst := func(param *ast.Ident, ptype types.Type, arg ast.Expr) bool {
 		if param == nil || param.Name == "_" {
 			return false
 		}
 		po := info.Defs[param]
-		id, ok := ast.Unparen(arg).(*ast.Ident)
-		if !ok || po == nil || id.Name == "_" || mutated[po] {
+		if po == nil || mutated[po] {
+			return false
+		}
+		// root identifier and the field objects of a selector path a.b.c
+		x := ast.Unparen(arg)
+		var fields []types.Object
+		for {
+			sel, ok := x.(*ast.SelectorExpr)
+			if !ok {
+				break
+			}
+			if selection := info.Selections[sel]; selection == nil || selection.Kind() != types.FieldVal {
+				return false
+			}
+			fields = append(fields, info.Uses[sel.Sel])
+			x = ast.Unparen(sel.X)
+		}
+		id, ok := x.(*ast.Ident)
+		if !ok || id.Name == "_" {
 			return false
 		}
 		ao, ok := info.Uses[id].(*types.Var)
 		if !ok || ao.IsField() || ao.Parent() == nil || ao.Parent() == ao.Pkg().Scope() {
 			return false // only function-local variables and parameters
 		}
-		if !types.Identical(ao.Type(), ptype) {
+		if at := info.TypeOf(arg); at == nil || !types.Identical(at, ptype) {
 			return false
 		}
-		if r, sub := in.subst[ao]; sub {
-			_ = r // the argument is itself a substituted parameter of an enclosing expansion: fine
-		}
-		if declared[id.Name] && id.Name != param.Name {
+		if declared[id.Name] && !(len(fields) == 0 && id.Name == param.Name) {
 			return false
 		}
 		if inLit[po] && in.assigns(s.caller)[ao] > 1 {
 			return false
+		}
+		if len(fields) > 0 {
+			if !callsQuiet || inLit[po] {
+				return false
+			}
+			for _, f := range fields {
+				if storedFields[f] {
+					return false
+				}
+			}
 		}
 		return true
 	}
@@ -916,7 +980,15 @@ func (in *inliner) emitSite0(s *inlSite) (rope, bool) {
 				continue
 			}
 			if _, sub := newSubst[info.Defs[pid]]; sub {
-				if id, ok := ast.Unparen(args[i]).(*ast.Ident); ok && bound[id.Name] {
+				x := ast.Unparen(args[i])
+				for {
+					sel, ok := x.(*ast.SelectorExpr)
+					if !ok {
+						break
+					}
+					x = ast.Unparen(sel.X)
+				}
+				if id, ok := x.(*ast.Ident); ok && bound[id.Name] {
 					return nil, false
 				}
 			}
@@ -960,11 +1032,12 @@ func (in *inliner) emitSite0(s *inlSite) (rope, bool) {
 				clash = true
 			}
 		}
+		// body-local declarations are renamed instead
 		ast.Inspect(body, func(m ast.Node) bool {
 			if id, ok := m.(*ast.Ident); ok && info.Defs[id] != nil && names[id.Name] {
-				clash = true
+				newSubst[info.Defs[id]] = g("%s_inl%d", id.Name, s.id)
 			}
-			return !clash
+			return true
 		})
 		if ft.Results != nil {
 			for _, f := range ft.Results.List {
@@ -1342,6 +1415,10 @@ func Normalise(p *Prog, o LoadOpts, protected map[*types.Func]bool) (*Prog, []st
 						callees[s.caller.Key()+"."+s.litVar.Name()] = true
 					}
 				}
+			}
+			p2.expandedFns = map[string]bool{}
+			for k := range callees {
+				p2.expandedFns[k] = true
 			}
 			var cs []string
 			for k := range callees {
